@@ -1,6 +1,7 @@
 import PytezosModel.Michelson.Interp.Syntax
 import PytezosModel.Michelson.Interp.Typing
 import PytezosModel.Michelson.Collections
+import PytezosModel.Micheline.Binary
 /-! `Spec.eval` — big-step reference semantics of the modelled Michelson core over a plain list stack,
 written from the Michelson reference (not from the pytezos code).  Outcomes (`Res`): a stack, a FAILWITH value, a
 runtime failure (`rtfail`: mutez overflow / underflow, shift by more than 256 bits), out of fuel (`oof`), `stuck`.
@@ -203,6 +204,226 @@ def updateN : Nat → Val → Val → Option Val
   | n + 2, e, .pair a b => (updateN n e b).map (.pair a)
   | _, _, _ => none
 
+/-! ### Extension 2, phase A: bytes ↔ numbers (Michelson reference: `NAT`, `INT` and `BYTES` use the big-endian
+encoding, two's complement for `int`, and `BYTES` returns the *shortest* such encoding, the empty string for 0) -/
+
+/-- value of a big-endian byte string: `Σ bᵢ · 256^(n-1-i)` -/
+def beNat : List Nat → Nat
+  | [] => 0
+  | b :: bs => b * 256 ^ bs.length + beNat bs
+
+/-- two's complement reading of a big-endian byte string of `n` bytes (the empty string is 0): the unsigned value, minus
+`256^n` when the top bit is set (i.e. the unsigned value is at least half of `256^n`) -/
+def beInt (bs : List Nat) : Int :=
+  if bs ≠ [] ∧ 256 ^ bs.length ≤ 2 * beNat bs then (beNat bs : Int) - 256 ^ bs.length else beNat bs
+
+/-- the `L` base-256 digits of `n mod 256^L`, most significant first -/
+def beDigits : Nat → Nat → List Nat
+  | 0, _ => []
+  | L + 1, n => (n / 256 ^ L) % 256 :: beDigits L n
+
+/-- the least `k' ≥ k` with `p k'`, looking at `fuel` candidates (`k + fuel` if there is none among them) -/
+def leastFrom (p : Nat → Bool) : (fuel : Nat) → (k : Nat) → Nat
+  | 0, k => k
+  | fuel + 1, k => if p k then k else leastFrom p fuel (k + 1)
+
+/-- BYTES on a natural number: its shortest big-endian encoding — the `L` digits for the least `L` with `n < 256^L`
+(0 ↦ the empty string; `L ≤ n`, so `n` candidates suffice) -/
+def natBytes (n : Nat) : List Nat := beDigits (leastFrom (fun L => decide (n < 256 ^ L)) n 0) n
+
+/-- `z` is representable in `L` bytes in two's complement: `-2^(8L-1) ≤ z < 2^(8L-1)` (in zero bytes: only 0) -/
+def fitsInt (z : Int) (L : Nat) : Bool :=
+  if L = 0 then z == 0 else decide (-(2 ^ (8 * L - 1) : Int) ≤ z ∧ z < 2 ^ (8 * L - 1))
+
+/-- BYTES on an integer: its shortest two's complement big-endian encoding — the digits of `z mod 256^L` for the least `L`
+in which `z` is representable (0 ↦ the empty string) -/
+def intBytes (z : Int) : List Nat :=
+  beDigits (leastFrom (fitsInt z) (z.natAbs + 1) 0) (z % 256 ^ (leastFrom (fitsInt z) (z.natAbs + 1) 0)).toNat
+
+/-- NAT: the natural number a byte string encodes (big-endian) -/
+def natV : Val → Res Val
+  | .bytes b => .ok (.num .nat (beNat b))
+  | _ => .stuck
+
+/-- BYTES: the shortest encoding of a natural number / of an integer (a `nat` holds a natural number) -/
+def bytesV : Val → Res Val
+  | .num .nat x => if 0 ≤ x then .ok (.bytes (natBytes x.toNat)) else .stuck
+  | .num .int x => .ok (.bytes (intBytes x))
+  | _ => .stuck
+
+/-- VOTING_POWER: voting power of a delegate — an environment reading (a `nat`) -/
+def votingPowerV (env : Env) : Val → Res Val
+  | .atom .keyHash s => numOk .nat (env.votingPower s)
+  | _ => .stuck
+
+/-- HASH_KEY: hash of a public key (the function is a parameter: `env.hashes.hashKey`) -/
+def hashKeyV (env : Env) : Val → Res Val
+  | .atom .key s => .ok (.atom .keyHash (env.hashes.hashKey s))
+  | _ => .stuck
+
+/-! ### Phase C: contracts and operations, in an environment without chain state (`Env` says nothing about the contracts at
+other addresses: an originated address is taken to hold a contract with the entrypoint and the type asked for; an implicit
+account has the entrypoint `default` of type `unit`, whatever the environment).  Address texts: `addrOf`, `epOf`, `mkAddr`
+(Syntax.lean). -/
+
+/-- the text of an address / handle with `%default` not written -/
+def normAddr (s : List Nat) : List Nat := if (s.dropWhile (· != 37)).drop 1 = defaultEp then addrOf s else s
+
+/-- ADDRESS: the address of a contract handle — with its entrypoint -/
+def addressV : Val → Res Val
+  | .contract _ s => .ok (.atom .address (normAddr s))
+  | _ => .stuck
+
+/-- IMPLICIT_ACCOUNT: the default handle (`contract unit`) of an implicit account (a key hash has no `%`: the text itself) -/
+def implicitAccountV : Val → Res Val
+  | .atom .keyHash s => .ok (.contract .unit (normAddr s))
+  | _ => .stuck
+
+/-- the entrypoint `CONTRACT %eI` means on an address naming `eA`: one of the two has to be `default` -/
+def resolveEp (eA eI : List Nat) : Option (List Nat) :=
+  if eA = defaultEp then some eI else if eI = defaultEp then some eA else none
+
+/-- `CONTRACT %eI t`.  An implicit account has the entrypoint `default` only and accepts `unit` — and, since Mumbai, every
+`ticket _` type; ticket types are outside `Ty`, so within the modelled universe the rule is "`unit` only". -/
+def contractV (t : Ty) (eI : List Nat) : Val → Res Val
+  | .atom .address s =>
+    match resolveEp (epOf s) eI with
+    | none => .ok (.none (.contract t))
+    | some ep =>
+      if isImplicit (addrOf s) then
+        .ok (if ep = defaultEp ∧ t = .unit then .some (.contract t (normAddr (addrOf s ++ 37 :: ep))) else .none (.contract t))
+      else .ok (.some (.contract t (normAddr (addrOf s ++ 37 :: ep))))
+  | _ => .stuck
+
+/-- SET_DELEGATE: a delegation operation of the running contract -/
+def setDelegateV (env : Env) : Val → Res Val
+  | .none .keyHash => .ok (.opDelegate env.self none)
+  | .some (.atom .keyHash s) => .ok (.opDelegate env.self (some s))
+  | _ => .stuck
+
+/-- `EMIT %tag t`: an event operation carrying a payload of type `t` -/
+def emitV (env : Env) (tag : List Nat) (t : Ty) (v : Val) : Res Val :=
+  if typeOf v = t then .ok (.opEmit env.self tag t v) else .stuck
+
+/-- TRANSFER_TOKENS: a transaction of `m` mutez with parameter `p` to the entrypoint the handle names -/
+def transferTokensV (env : Env) : Val → Val → Val → Res Val
+  | p, .num .mutez m, .contract t s =>
+    if typeOf p = t then .ok (.opTransfer env.self (addrOf s) (epOf s) m p t) else .stuck
+  | _, _, _ => .stuck
+
+/-! ### Phase B (first half): PACK of the plain data classes.  `PACK v` = the byte `05` followed by the binary Micheline of the
+canonical *optimized* form of `v`: numbers as integers (a timestamp as its seconds), a right comb of 2 components as `Pair a b`,
+of 3 as `Pair a (Pair b c)`, of 4 or more as the sequence of its components, sets / lists as sequences, maps as sequences of
+`Elt`.  Binary Micheline (Tezos data encoding): `00` zarith integer; `01` / `0a` string / bytes with a 4-byte big-endian
+length; `02` sequence with the 4-byte length of its body; `03 tag` / `05 tag arg` / `07 tag arg arg` primitive applications
+without annotations; primitive tags: False 3, Elt 4, Left 5, None 6, Pair 7, Right 8, Some 9, True 10, Unit 11. -/
+/-- a right comb of 2 components is `Pair a b`, of 3 `Pair a (Pair b c)`, of 4 or more the sequence of its components -/
+def combLayout : List BMich → BMich
+  | [x, y] => .prim 7 [x, y] none
+  | [x, y, z] => .prim 7 [x, .prim 7 [y, z] none] none
+  | cs => .seq cs
+
+mutual
+  /-- first component: the canonical optimized Micheline of the value (`BMich`: primitives as tags, strings as bytes);
+  second: the components it contributes when it stands as the right part of a pair — those of its own right spine if it
+  is a pair, else the value itself.  `none`: a value outside the plain classes -/
+  def optBoth : Val → Option (BMich × List BMich)
+    | .pair a b =>
+      match optBoth a, optBoth b with
+      | some x, some y => some (combLayout (x.1 :: y.2), x.1 :: y.2)
+      | _, _ => none
+    | .unit => some (.prim 11 [] none, [.prim 11 [] none])
+    | .bool true => some (.prim 10 [] none, [.prim 10 [] none])
+    | .bool false => some (.prim 3 [] none, [.prim 3 [] none])
+    | .num _ v => some (.int v, [.int v])
+    | .str s => some (.str s, [.str s])
+    | .bytes b => some (.bytes b, [.bytes b])
+    | .some v => (optBoth v).map fun x => (.prim 9 [x.1] none, [.prim 9 [x.1] none])
+    | .none _ => some (.prim 6 [] none, [.prim 6 [] none])
+    | .left v _ => (optBoth v).map fun x => (.prim 5 [x.1] none, [.prim 5 [x.1] none])
+    | .right _ v => (optBoth v).map fun x => (.prim 8 [x.1] none, [.prim 8 [x.1] none])
+    | .list _ xs => (optimizedL xs).map fun ys => (.seq ys, [.seq ys])
+    | .set _ xs => (optimizedL xs).map fun ys => (.seq ys, [.seq ys])
+    | .map _ _ xs => (optimizedE xs).map fun ys => (.seq ys, [.seq ys])
+    | _ => none
+  def optimizedL : List Val → Option (List BMich)
+    | [] => some []
+    | x :: xs =>
+      match optBoth x, optimizedL xs with
+      | some y, some ys => some (y.1 :: ys)
+      | _, _ => none
+  /-- the bindings of a map (`Pair key value` items of the model) as `Elt key value` -/
+  def optimizedE : List Val → Option (List BMich)
+    | [] => some []
+    | .pair k v :: xs =>
+      match optBoth k, optBoth v, optimizedE xs with
+      | some a, some b, some ys => some (.prim 4 [a.1, b.1] none :: ys)
+      | _, _, _ => none
+    | _ :: _ => none
+end
+
+/-- canonical optimized Micheline of a value of the plain data classes -/
+def optimized (v : Val) : Option BMich := (optBoth v).map (·.1)
+
+/-- 4-byte big-endian length prefix (`none`: 2^32 bytes or more) -/
+def lenPrefixed (data : List Nat) : Option (List Nat) :=
+  if data.length < 2 ^ 32 then some (beDigits 4 data.length ++ data) else none
+
+mutual
+  /-- binary Micheline of an annotation-free expression whose primitive applications have at most two arguments -/
+  def encodeM : BMich → Option (List Nat)
+    | .int v => some (0 :: Core.forgeInt v)
+    | .str s => (lenPrefixed s).map (1 :: ·)
+    | .bytes b => (lenPrefixed b).map (10 :: ·)
+    | .seq xs => ((encodeL xs).bind lenPrefixed).map (2 :: ·)
+    | .prim t [] none => some [3, t]
+    | .prim t [a] none => (encodeM a).map fun x => 5 :: t :: x
+    | .prim t [a, b] none =>
+      match encodeM a, encodeM b with
+      | some x, some y => some (7 :: t :: (x ++ y))
+      | _, _ => none
+    | .prim _ _ _ => none
+  def encodeL : List BMich → Option (List Nat)
+    | [] => some []
+    | x :: xs =>
+      match encodeM x, encodeL xs with
+      | some a, some b => some (a ++ b)
+      | _, _ => none
+end
+
+/-- PACK: defined on the plain data classes; a serialization of 2^32 bytes or more is a runtime failure -/
+def packV (v : Val) : Res Val :=
+  if !Typing.packable (typeOf v) then .stuck else
+  match optimized v with
+  | none => .stuck
+  | some m =>
+    match encodeM m with
+    | some bs => .ok (.bytes (5 :: bs))
+    | none => .rtfail
+
+/-- **extension 2, rules of the form `i / a : S ⇒ r : S`**.  `NEVER` has no rule (there is no value of type `never`). -/
+def unV (env : Env) (i : Instr) (a : Val) : Res Val :=
+  match i with
+  | .NAT => natV a
+  | .BYTES => bytesV a
+  | .VOTING_POWER => votingPowerV env a
+  | .HASH_KEY => hashKeyV env a
+  | .ADDRESS => addressV a
+  | .IMPLICIT_ACCOUNT => implicitAccountV a
+  | .CONTRACT t ep => contractV t ep a
+  | .SET_DELEGATE => setDelegateV env a
+  | .EMIT tag t => emitV env tag t a
+  | .PACK => packV a
+  | _ => .stuck
+
+def stepExt (env : Env) : Instr → List Val → Res (List Val)
+  -- `SELF %ep`: the handle on entrypoint `ep` (of type `t`) of the running contract
+  | .SELF ep t, st => .ok (.contract t (normAddr (env.self ++ 37 :: ep)) :: st)
+  | .TRANSFER_TOKENS, a :: b :: c :: st => (transferTokensV env a b c).bind fun r => .ok (r :: st)
+  | .TRANSFER_TOKENS, _ => .stuck
+  | i, a :: st => (unV env i a).bind fun r => .ok (r :: st)
+  | _, [] => .stuck
+
 /-- further rules without sub-programs (kept apart from `step` so that either pattern match stays small) -/
 def stepMore (env : Env) : Instr → List Val → Res (List Val)
   | .TOTAL_VOTING_POWER, st => (numOk .nat env.totalVotingPower).bind fun r => .ok (r :: st)
@@ -216,7 +437,7 @@ def stepMore (env : Env) : Instr → List Val → Res (List Val)
   -- `CAST t` / `RENAME`: identity on a top element of type `t` / on any top element (annotations are not modelled)
   | .CAST t, x :: st => if typeOf x = t then .ok (x :: st) else .stuck
   | .RENAME, x :: st => .ok (x :: st)
-  | _, _ => .stuck
+  | i, st => stepExt env i st
 
 /-- the rules for instructions without sub-programs -/
 def step (env : Env) : Instr → List Val → Res (List Val)
@@ -298,6 +519,7 @@ def step (env : Env) : Instr → List Val → Res (List Val)
   | .ABS, .num .int x :: st => .ok (.num .nat (Int.ofNat x.natAbs) :: st)
   | .ISNAT, .num .int x :: st => .ok ((if 0 ≤ x then .some (.num .nat x) else .none .nat) :: st)
   | .INT, .num .nat x :: st => .ok (.num .int x :: st)
+  | .INT, .bytes b :: st => .ok (.num .int (beInt b) :: st)      -- big-endian two's complement
   | .COMPARE, a :: b :: st =>
     if typeOf a = typeOf b then
       match compare a b with
